@@ -173,8 +173,8 @@ class Ref:
             for v, b in s["table"]:
                 table[_hashable(v)] = b
             found = d in table
-        except TypeError:
-            raise RefErr("TypeError")
+        except TypeError:  # unhashable dispatch value: no branch matches
+            found = False
         if not found:
             self.unselected.extend(b for _, b in s["table"])
             if default is None:
@@ -329,8 +329,8 @@ class Ref:
                 for a in alias if isinstance(alias, list) else [alias]:
                     table[_hashable(a)] = (impl, tag)
             found = v in table
-        except TypeError:
-            raise RefErr("TypeError")
+        except TypeError:  # unhashable dispatch value: no implementation matches
+            found = False
         if found:
             return table[v]
         if default is None:
